@@ -44,3 +44,34 @@ Proof.
   split; intros [W H]; (split; [exact W|]); intros c' W'; specialize (H c' W'); rewrite !score_cost_spec in *;
     apply (equivalent_schemes_same_order s1 s2 N1 N2 E D c c'); exact H.
 Qed.
+
+(** [is_equivalent_to] is an equivalence relation on valid schemes *)
+Theorem is_equivalent_refl s : nonneg s -> is_equivalent_to s s = true.
+Proof.
+  intros N. apply (is_equivalent_iff 6 s s N N). apply equiv_spec6.
+  exists 1, 1. repeat split; try lia.
+Qed.
+
+Theorem is_equivalent_sym s1 s2 : nonneg s1 -> nonneg s2 -> is_equivalent_to s1 s2 = true -> is_equivalent_to s2 s1 = true.
+Proof.
+  intros N1 N2 H. apply (is_equivalent_iff 6 s1 s2 N1 N2) in H. apply (is_equivalent_iff 6 s2 s1 N2 N1).
+  apply equiv_spec6 in H as (p & q & Hp & Hq & HB & HT). apply equiv_spec6.
+  exists q, p. split; [exact Hq|]. split; [exact Hp|]. split; intros i; [rewrite HB|rewrite HT]; reflexivity.
+Qed.
+
+Theorem is_equivalent_trans s1 s2 s3 : nonneg s1 -> nonneg s2 -> nonneg s3 ->
+  is_equivalent_to s1 s2 = true -> is_equivalent_to s2 s3 = true -> is_equivalent_to s1 s3 = true.
+Proof.
+  intros N1 N2 N3 H12 H23.
+  apply (is_equivalent_iff 6 s1 s2 N1 N2) in H12. apply (is_equivalent_iff 6 s2 s3 N2 N3) in H23.
+  apply (is_equivalent_iff 6 s1 s3 N1 N3).
+  apply equiv_spec6 in H12 as (p & q & Hp & Hq & HB & HT). apply equiv_spec6 in H23 as (p' & q' & Hp' & Hq' & HB' & HT').
+  apply equiv_spec6. exists (p * p'), (q * q'). split; [nia|]. split; [nia|].
+  split; intros i.
+  - pose proof (HB i) as A. pose proof (HB' i) as B.
+    replace (p * p' * Bv s1 i) with (p' * (p * Bv s1 i)) by ring. rewrite A.
+    replace (p' * (q * Bv s2 i)) with (q * (p' * Bv s2 i)) by ring. rewrite B. ring.
+  - pose proof (HT i) as A. pose proof (HT' i) as B.
+    replace (p * p' * Tv s1 i) with (p' * (p * Tv s1 i)) by ring. rewrite A.
+    replace (p' * (q * Tv s2 i)) with (q * (p' * Tv s2 i)) by ring. rewrite B. ring.
+Qed.
